@@ -23,7 +23,10 @@ pub struct Case {
 }
 
 pub fn all_schedules(n: usize, extra: &[Schedule]) -> Vec<Schedule> {
-    let mut v = vec![Schedule::Bytewise, Schedule::Stride(7), Schedule::Stride(10), Schedule::Stride(4096)];
+    let mut v = vec![Schedule::Stride(7), Schedule::Stride(10), Schedule::Stride(4096), Schedule::Stride(512)];
+    if n <= 2000 {
+        v.push(Schedule::Bytewise);
+    }
     if n <= 600 {
         v.extend((0..=n).map(Schedule::Two));
     } else {
@@ -144,8 +147,18 @@ pub fn strategy() -> BoxedStrategy<Case> {
         }
         (body, filters, c.content_type)
     });
+    // a start tag longer than any plausible internal limit (5 KB attribute), cut far behind its '<'
+    let long_tag = (c15::strategy(), 4000usize..6000).prop_map(|(c, n)| {
+        let body = serialize(&c.doc);
+        let tag = format!("<{}", c.filters[0].path.last().cloned().unwrap_or_default());
+        let body = match body.to_lowercase().find(&tag) {
+            Some(i) => format!("{} data-long=\"{}\"{}", &body[..i + tag.len()], "a".repeat(n), &body[i + tag.len()..]),
+            None => body,
+        };
+        (body, c.filters.iter().map(|f| f.to_json()).collect::<Vec<Value>>(), c.content_type)
+    });
     let from_soup = (soup_strategy(30), prop::collection::vec(prop_oneof![4 => soup_filter_strategy(), 1 => text_filter_strategy()], 1..4), 0u8..3).prop_map(|(b, f, ct)| (b, f, ct));
-    (prop_oneof![3 => from_dom.boxed(), 2 => from_soup.boxed()], prop::collection::vec(schedule_strategy(), 2..5))
+    (prop_oneof![30 => from_dom.boxed(), 20 => from_soup.boxed(), 1 => long_tag.boxed()], prop::collection::vec(schedule_strategy(), 2..5))
         .prop_map(|((body, filters, content_type), schedules)| Case { body, filters, content_type, schedules, no_exclusions: false })
         .boxed()
 }
@@ -154,7 +167,7 @@ pub fn run(ctx: &Ctx) -> Report {
     let mut rep = Report::new(
         "C03",
         "case = body (well-formed generated DOM, structure-breaking mutation of one, or fragment soup incl. half tags, unterminated comments/CDATA, scripts; valid UTF-8) x 1..4 filters (HTML append/prepend/replace with/without selector over paths occurring in the body, text append/prepend/replace) x response headers; \
-         schedules: byte-wise, every two-partition (all n+1 cut positions, enumerated for bodies <= 600 bytes), strides 7/10/4096, generated k-partitions with repeated cut points (empty chunks); oracle = concat(filter(chunk_i)) + end() is byte-identical to the single-chunk run; \
+         schedules: byte-wise, every two-partition (all n+1 cut positions, enumerated for bodies <= 600 bytes), strides 7/10/512/4096, (2 % of the bodies carry a 4-6 KB start tag, cut at 200 evenly spaced positions), generated k-partitions with repeated cut points (empty chunks); oracle = concat(filter(chunk_i)) + end() is byte-identical to the single-chunk run; \
          non-trivial = the single-chunk output differs from the input AND at least one evaluated cut falls strictly inside a tag, an attribute value or a multi-byte character (classified with the real tokenizer on the whole body); distinct by case hash",
     );
     rep.assume("bodies are valid UTF-8 (invalid bytes are C04's subject); schedules with a cut inside the zones of known finding D7 (inside a comment / doctype / CDATA token, or between a raw-text start tag and the end of its end tag) are excluded by construction while that finding is listed, and counted");
